@@ -1495,6 +1495,29 @@ def check(case):
         B = _Built(s)
     if B is None:
         return
+    if s.get('pop') is not None and popgen.has(s['pop'], 'hetero') and s.get('n_ids_h', 1) >= 2:
+        # virtual patients are independent draws from the modelled individuals, also when no more patients are drawn
+        # than there are individuals: over 60 seeded calls with n_samples = n_ids some call has one individual twice
+        # (each call is a permutation with probability k!/k^k <= 1/2 only), and every patient is a modelled individual
+        with case.clause('hetero_joint'):
+            import chi
+            k = int(s['n_ids_h'])
+            rows = np.arange(1.0, k + 1.0)
+            hm = chi.HeterogeneousModel(n_dim=1, n_ids=k)
+            cm = chi.ComposedPopulationModel([chi.HeterogeneousModel(n_dim=1, n_ids=k), chi.PooledModel(n_dim=1)])
+            rep = [0, 0]
+            for sd in range(60):
+                for j, (m, par) in enumerate(((hm, rows), (cm, np.append(rows, 5.0)))):
+                    r = np.asarray(m.sample(par, n_samples=k, seed=int(s['seed']) + sd), dtype=float)
+                    case.equal(tuple(r.shape), (k, 1 + j), 'shape of %d heterogeneous samples' % k, kind='shape')
+                    case.true(all(float(v) in rows for v in r[:, 0]), 'heterogeneous samples %r are no modelled '
+                              'individuals %r' % (r[:, 0].tolist(), rows.tolist()))
+                    rep[j] += len(set(r[:, 0].tolist())) < k
+            case.true(rep[0] > 0 and rep[1] > 0, 'in 60 seeded calls with n_samples = n_ids = %d no virtual patient ever '
+                      'shared the individual of another patient of the same call (calls with a repeat: %r; independent '
+                      'draws give a repeat with probability %.3f per call)' % (k, rep, 1 - math.factorial(k) / k ** k),
+                      kind='statistic')
+            case.labels.append('hetero_joint')
     mech, ems = B.mech, B.ems
     n_par = s['mech']['n_par']
     stat = s['stat']
